@@ -1,1 +1,5 @@
+import SugarModel.Props.C01
+import SugarModel.Props.C04
+import SugarModel.Props.C13
+import SugarModel.Props.C19
 import SugarModel.Props.C20
